@@ -35,6 +35,10 @@ CLAIMED = {
          'Machine-checked proof (Lean 4) for ALL in-contract arguments and ALL memory contents: set_sprite paints exactly the non-transparent sprite pixels that fall on the sheet (clipped, no wrap, no error) and nothing else; set_cell/set_rect_tiles write exactly the addressed cells of the 128x64 map incl. the half aliased into sprite memory; flag, note, property and music setters read back and leave every other byte unchanged; getters return the documented grid values. Histories are covered by composing these complete per-operation characterisations; the harness runs random operation histories on the implementation against the stateful Lean model and an independent plain-grid oracle, comparing the whole memory after every operation.',
          'Trusted: Lean kernel; hand model of the accessors; correspondence is testing. get_rect_pixels is covered by the harness only.',
          '5/C17'),
+ 'C02': ('Lean 4 proof: state invariant of the name factory by induction over the request history; injectivity of the base-26 enumeration by strong induction; termination of the skip loop by pigeonhole; correspondence with compiled model',
+         'Machine-checked proof (Lean 4) for EVERY request history (every identifier occurrence of a program in order, labels included) and every configuration (default, keep-all, any keep file): equal inputs get equal outputs, different inputs different outputs (also when one is kept), reserved/kept names are unchanged, generated names are never reserved, the short-name enumeration is injective for all ids, and the allocation loop always terminates within |reserved|+1 steps. Reserved-name tables are regenerated from lua.py/lexer.py. The factory is hand-modelled and tied to the code by differential execution on histories up to 5000 requests, all ids below 20,000/200,000, and by aligning name tokens of real luamin output with the input on generated programs.',
+         'Trusted: Lean kernel; gen_tables.py; float division int(id/26) exact below 2^53 (stated, not proved); that every identifier occurrence goes through get_short_name is by the correspondence of the writer model (C01).',
+         '5/C02'),
 }
 NOT_YET = 'check not built yet in this round (framework under construction); will be claimed when its Lean model, theorems and correspondence run'
 
